@@ -14,6 +14,7 @@ CONSTANTS
   ShapeMode = 0
   ArmorHdrs = {}
   SigBools = {TRUE, FALSE}
+  BigSel = {}
   Emit = TRUE
   MaxObjs = 3
   MaxIters = 2
